@@ -529,7 +529,7 @@ func main() {
 	rnd := hx.NewRand(hx.Seed() + 303)
 
 	cs := &hx.Cases{Header: header, Type: "c3case", Footer: footer}
-	st := &hx.Stats{Rule: "histories of 6-45 events over a pool of 5-12 colliding patterns (shared prefixes, same position with different wildcard names, hostnames) on GET/POST/FOO/BAR: Handle/Update/Delete/Truncate issued through the Router helpers or inside write transactions (Commit/Abort), with snapshots (Txn.Iter, Txn.Snapshot, Router.Iter, Router.Txn(false)) at random points including inside write transactions; every snapshot is re-observed in full and the object graph is dumped after every event; plus eviction streams (fan-out 66, depth 3, > 4096 nodes cloned in one transaction). non-trivial = history in which at least one snapshot was taken and at least one successful write followed it; distinct = distinct event sequences"}
+	st := &hx.Stats{Rule: "histories of 6-45 events over a pool of 5-12 colliding patterns (shared prefixes, same position with different wildcard names, hostnames) on GET/POST/FOO/BAR: Handle/Update/Delete/Truncate issued through the Router helpers or inside write transactions (Commit/Abort), with snapshots (Txn.Iter, Txn.Snapshot, Router.Iter, Router.Txn(false)) at random points including inside write transactions; every snapshot is re-observed in full and the object graph is dumped after every event; plus eviction streams (fan-out 66, depth 3, > 4096 nodes cloned in one transaction). non-trivial = history in which at least one snapshot was taken and at least one successful write followed it; distinct = distinct event sequences; plus nested-structure scenarios (one fifth as many): a nested tree is registered, readers snapshot the published state, then cached write transactions restructure a node (delete that merges a parent with its last child, delete of an inner route, insert that splits an edge, update) and write at / next to / below it, mostly without Iter()/Snapshot() in between, ending in Commit or Abort"}
 
 	n := 300
 	if tier == "thorough" {
@@ -711,6 +711,17 @@ func main() {
 		}
 	}
 
+	// nested-structure scenarios: restructure a node inside a cached transaction, then write at / below it
+	nn := n / 5
+	for k := 0; k < nn; k++ {
+		t, h, nt := nestedHistory(rnd, st)
+		cs.Add(t, h)
+		if nt && !seen[h] {
+			nontrivial++
+		}
+		seen[h] = true
+	}
+
 	// eviction streams
 	ne := 1
 	if tier == "thorough" {
@@ -730,6 +741,220 @@ func main() {
 	hx.Fatal(cs.Write(out, shards))
 	hx.Fatal(st.Write(out))
 	fmt.Printf("c03: %d histories\n", cs.Len())
+}
+
+// nestedTree draws a nested set of patterns: every inner position has 2-3 edges with distinct first bytes, each
+// edge being a leaf or an inner position again (depth <= 3); some inner positions are routes themselves.
+// Shapes like {P+"a", P+"bx", P+"by"} (a leaf next to a sibling that has children) are the common case.
+func nestedTree(rnd *hx.Rand, prefix string, depth int, out *[]string) {
+	letters := []string{"a", "b", "c", "d", "e"}
+	for i := len(letters) - 1; i > 0; i-- {
+		j := rnd.Intn(i + 1)
+		letters[i], letters[j] = letters[j], letters[i]
+	}
+	k := 2
+	if rnd.Pct(35) {
+		k = 3
+	}
+	inner := 0
+	for i := 0; i < k; i++ {
+		edge := letters[i] + hx.Pick(rnd, []string{"", "", "", "x", "/", "o/"})
+		if depth < 3 && (rnd.Pct(45) || (i == k-1 && inner == 0 && depth == 1)) {
+			inner++
+			if rnd.Pct(20) {
+				*out = append(*out, prefix+edge) // an inner position that is a route too
+			}
+			nestedTree(rnd, prefix+edge, depth+1, out)
+		} else {
+			*out = append(*out, prefix+edge)
+		}
+	}
+}
+
+func commonPrefixLen(a, b string) int {
+	i := 0
+	for i < len(a) && i < len(b) && a[i] == b[i] {
+		i++
+	}
+	return i
+}
+
+// nestedHistory: register a nested tree, let readers take snapshots of the published state, then run cached write
+// transactions in which one call restructures a node (a delete that merges a parent with its last child, a delete
+// of an inner route, an insert that splits an edge, an update) and the following calls write at, next to and below
+// the restructured node - mostly with no Iter()/Snapshot() in between - and end with Commit or Abort. The readers'
+// snapshots are re-observed and the object graph is compared after every event, as everywhere else.
+func nestedHistory(rnd *hx.Rand, st *hx.Stats) (string, string, bool) {
+	w := newWorld(false)
+	prefix := hx.Pick(rnd, []string{"/foo/", "/", "/a/", "/x/y/", "/{p}/", "h.com/", "a.{h}/v/", "/foo"})
+	var pool []string
+	nestedTree(rnd, prefix, 1, &pool)
+	method := hx.Pick(rnd, []string{"GET", "GET", "GET", "POST", "FOO"})
+	w.methods = []string{method, hx.Pick(rnd, []string{"GET", "BAR"})}
+	// patterns the transaction may add below / next to existing ones
+	extra := map[string]bool{}
+	for _, p := range pool {
+		for _, sfx := range []string{"/1", "z", "/{id}", "1/2"} {
+			q := p + sfx
+			if !strings.Contains(q, "//") {
+				extra[q] = true
+			}
+		}
+	}
+	var below []string
+	for _, q := range hx.SortedKeys(extra) {
+		below = append(below, q)
+	}
+	w.pats = append(append([]string{}, pool...), below...)
+	if len(w.pats) > 40 {
+		w.pats = w.pats[:40]
+	}
+	for _, p := range w.pats {
+		h, pa := rt.SplitPattern(rt.Instantiate(rnd, p, false))
+		if pa == "" {
+			pa = "/"
+		}
+		w.probes = append(w.probes, probe{method, h, pa})
+	}
+	var terms, human []string
+	writesAfterSnap := 0
+	step := func(e ev) string {
+		if e.method == "" {
+			e.method = method
+		}
+		t, h := w.apply(e, 1, true)
+		terms = append(terms, t)
+		human = append(human, h)
+		st.Count("nested-ev:" + e.kind)
+		if strings.HasSuffix(h, "-> ok") && len(w.snaps) > 0 && (e.kind == "Handle" || e.kind == "Update" || e.kind == "Delete") {
+			writesAfterSnap++
+		}
+		return h
+	}
+	// registration: one-shot helpers in random order, or one transaction
+	order := append([]string{}, pool...)
+	for i := len(order) - 1; i > 0; i-- {
+		j := rnd.Intn(i + 1)
+		order[i], order[j] = order[j], order[i]
+	}
+	registered := map[string]bool{}
+	inTxn := rnd.Pct(30)
+	if inTxn {
+		step(ev{kind: "Begin"})
+	}
+	for _, p := range order {
+		if strings.HasSuffix(step(ev{kind: "Handle", pat: p}), "-> ok") {
+			registered[p] = true
+		}
+	}
+	if inTxn {
+		step(ev{kind: "Commit"})
+	}
+	rounds := rnd.Range(1, 2)
+	for round := 0; round < rounds; round++ {
+		// readers of the published state
+		for _, k := range []string{"ObsIter", "ObsTxn"} {
+			if len(w.snaps) < 6 && rnd.Pct(80) {
+				step(ev{kind: k})
+			}
+		}
+		step(ev{kind: "Begin"})
+		nops := rnd.Range(2, 6)
+		focus := ""
+		for i := 0; i < nops; i++ {
+			live := hx.SortedKeys(registered)
+			if len(live) == 0 {
+				break
+			}
+			if focus == "" || rnd.Pct(25) {
+				// the restructuring call
+				focus = hx.Pick(rnd, live)
+				switch q := rnd.Intn(100); {
+				case q < 65:
+					if strings.HasSuffix(step(ev{kind: "Delete", pat: focus}), "-> ok") {
+						delete(registered, focus)
+					}
+				case q < 80:
+					step(ev{kind: "Update", pat: focus})
+				default:
+					np := focus[:rnd.Range(min(len(prefix), len(focus)), len(focus))] + hx.Pick(rnd, []string{"q", "/q", ""})
+					if strings.HasSuffix(step(ev{kind: "Handle", pat: np}), "-> ok") {
+						registered[np] = true
+					}
+				}
+				continue
+			}
+			if rnd.Pct(12) && len(w.snaps) < 8 {
+				step(ev{kind: hx.Pick(rnd, []string{"SnapIter", "SnapClone"})})
+				continue
+			}
+			// a write near the restructured node: the registered pattern sharing the longest prefix with it
+			best, bl := "", -1
+			for _, p := range live {
+				if p == focus {
+					continue
+				}
+				if l := commonPrefixLen(p, focus); l > bl || (l == bl && rnd.Bool()) {
+					best, bl = p, l
+				}
+			}
+			if best == "" {
+				best = focus
+			}
+			switch q := rnd.Intn(100); {
+			case q < 50:
+				np := best + hx.Pick(rnd, []string{"/1", "z", "/{id}", "1/2"})
+				if strings.HasSuffix(step(ev{kind: "Handle", pat: np}), "-> ok") {
+					registered[np] = true
+				}
+			case q < 70:
+				step(ev{kind: "Update", pat: best})
+			case q < 90:
+				if strings.HasSuffix(step(ev{kind: "Delete", pat: best}), "-> ok") {
+					delete(registered, best)
+				}
+				focus = best
+			default:
+				step(ev{kind: "Handle", pat: focus}) // put the deleted route back (or "exists")
+				registered[focus] = true
+			}
+		}
+		if rnd.Pct(50) {
+			step(ev{kind: "Commit"})
+		} else {
+			step(ev{kind: "Abort"})
+			// the transaction's view is gone: recompute what is registered from the router
+			registered = map[string]bool{}
+			for _, p := range w.pats {
+				if w.f.Has(method, p) {
+					registered[p] = true
+				}
+			}
+			for _, p := range hx.SortedKeys(extra) {
+				if w.f.Has(method, p) {
+					registered[p] = true
+				}
+			}
+		}
+		// the router goes on
+		for i := rnd.Range(0, 2); i > 0; i-- {
+			live := hx.SortedKeys(registered)
+			if len(live) == 0 {
+				break
+			}
+			p := hx.Pick(rnd, live)
+			if rnd.Bool() {
+				step(ev{kind: "Update", pat: p})
+			} else if strings.HasSuffix(step(ev{kind: "Delete", pat: p}), "-> ok") {
+				delete(registered, p)
+			}
+		}
+	}
+	st.Count("history:nested")
+	st.Count(fmt.Sprintf("snapshots:%d", len(w.snaps)))
+	w.release()
+	hs := strings.Join(human, " ; ")
+	return "{| k_cap := 4096; k_steps := " + hx.List(terms) + " |}", hs, writesAfterSnap > 0
 }
 
 const alphabet = "0123456789abcdefghijklmnopqrstuvwxyzABCDEFGHIJKLMNOPQRSTUVWXYZ-_~!"
